@@ -1,4 +1,5 @@
 import PbVerif.Lemmas.Loess
+import PbVerif.Model.LoessKern
 import PbVerif.Lemmas.BSplineAffine
 /-! C19: `_determine_fits` and `_fill_skips` are invariant under an increasing affine map `t ↦ a·t + b` of the
 x-axis (with `delta` scaled by `a`): every test of the selection compares differences of x-values (and `delta`),
@@ -170,5 +171,60 @@ theorem fillSkips_aff (a b : Rat) (ha : a ≠ 0) (x y : List Rat) (skips : List 
       · rw [if_neg hc, if_neg hc]
     rw [hstep]
     exact ih _ (by simp [hlen]) (fun p hp' => hs p (List.mem_cons_of_mem _ hp'))
+
+end PbVerif.Lemmas.LoessAffine
+
+/-! ### the tricube kernel of a local fit (`_loess_low_memory` / `_loess_first_loop`) -/
+namespace PbVerif.Lemmas.LoessAffine
+open PbVerif.LoessKern PbVerif.Lemmas.Affine
+
+theorem rabs_aff (sqrt : Rat → Rat) (a b : Rat) (ha : 0 < a) (t u : Rat) :
+    (ratNum sqrt).abs ((ratNum sqrt).sub (aff a b t) (aff a b u)) = a * (ratNum sqrt).abs ((ratNum sqrt).sub t u) := by
+  simp only [ratNum, aff]
+  have h : a * t + b - (a * u + b) = a * (t - u) := by ring
+  rw [h]
+  by_cases hc : t - u < 0
+  · rw [if_pos hc, if_pos (mul_neg_of_pos_of_neg ha hc)]; ring
+  · rw [if_neg hc, if_neg (by intro h'; exact hc (by by_contra hn; exact absurd h' (not_lt.mpr (mul_nonneg ha.le (not_lt.mp hn)))))]
+
+theorem slice_map {α β : Type} (f : α → β) (v : List α) (l r : Nat) : slice (v.map f) l r = (slice v l r).map f := by
+  simp only [slice, List.map_drop, List.map_take]
+
+theorem diffs_aff (sqrt : Rat → Rat) (a b : Rat) (ha : 0 < a) (x : List Rat) (i left right : Nat) (hi : i < x.length) :
+    diffs (ratNum sqrt) (x.map (aff a b)) i left right = (diffs (ratNum sqrt) x i left right).map (a * ·) := by
+  simp only [diffs, slice_map, List.map_map]
+  apply List.map_congr_left
+  intro t _
+  have hz : (ratNum sqrt).zero = 0 := rfl
+  simp only [Function.comp, hz]
+  rw [getD_map_aff a b x i hi]
+  exact rabs_aff sqrt a b ha t _
+
+theorem headD_map_mul (a : Rat) (l : List Rat) : (l.map (a * ·)).headD 0 = a * l.headD 0 := by
+  cases l <;> simp
+theorem getLastD_map_mul (a : Rat) (l : List Rat) : (l.map (a * ·)).getLastD 0 = a * l.getLastD 0 := by
+  rw [List.getLastD_eq_getLast?, List.getLastD_eq_getLast?, List.getLast?_map]
+  cases l.getLast? <;> simp
+
+theorem pyMax_mul (sqrt : Rat → Rat) (a : Rat) (ha : 0 < a) (u v : Rat) :
+    pyMax (ratNum sqrt) (a * u) (a * v) = a * pyMax (ratNum sqrt) u v := by
+  simp only [pyMax, ratNum, decide_eq_true_eq, mul_lt_mul_iff_right₀ ha]
+  split <;> rfl
+
+theorem kernelDen_aff (sqrt : Rat → Rat) (a b : Rat) (ha : 0 < a) (x : List Rat) (i left right : Nat) (hi : i < x.length) :
+    kernelDen (ratNum sqrt) (x.map (aff a b)) i left right = a * kernelDen (ratNum sqrt) x i left right := by
+  have hz : (ratNum sqrt).zero = 0 := rfl
+  simp only [kernelDen, diffs_aff sqrt a b ha x i left right hi, hz, headD_map_mul, getLastD_map_mul, pyMax_mul sqrt a ha]
+
+theorem tricube_mul (sqrt : Rat → Rat) (a : Rat) (ha : a ≠ 0) (m d : Rat) :
+    tricubeSqrt (ratNum sqrt) (a * m) (a * d) = tricubeSqrt (ratNum sqrt) m d := by
+  simp only [tricubeSqrt, ratNum, mul_div_mul_left d m ha]
+
+theorem kernelOf_aff (sqrt : Rat → Rat) (a b : Rat) (ha : 0 < a) (x : List Rat) (i left right : Nat) (hi : i < x.length) :
+    kernelOf (ratNum sqrt) (x.map (aff a b)) i left right = kernelOf (ratNum sqrt) x i left right := by
+  simp only [kernelOf, kernelDen_aff sqrt a b ha x i left right hi, diffs_aff sqrt a b ha x i left right hi, List.map_map]
+  apply List.map_congr_left
+  intro d _
+  exact tricube_mul sqrt a (ne_of_gt ha) _ d
 
 end PbVerif.Lemmas.LoessAffine
